@@ -553,6 +553,15 @@ class BezierPath(BooleanOperationsMixin, SampleMixin, object):
         flat.closed = self.closed
         return flat
 
+    @staticmethod
+    def _directionOfTravel(i) -> Point:
+        """Where a segment crosses a horizontal ray with an exactly horizontal
+        tangent (a horizontal inflection), the sign of the tangent's y component
+        says nothing: use the chord between two nearby points of the segment."""
+        before = i.seg1.pointAtTime(max(i.t1 - 1e-3, 0))
+        after = i.seg1.pointAtTime(min(i.t1 + 1e-3, 1))
+        return after - before
+
     def windingNumberOfPoint(self, pt: Point) -> int:
         """Returns the winding number of a point with respect to the path."""
         bounds = self.bounds()
@@ -575,11 +584,15 @@ class BezierPath(BooleanOperationsMixin, SampleMixin, object):
             # XXX tangents here are all positive? Really?
             # print(i.seg1, i.t1, i.point)
             tangent = i.seg1.tangentAtTime(i.t1)
+            if tangent.y == 0:
+                tangent = self._directionOfTravel(i)
             # print("Tangent at left intersection %s is %f" % (i.point,tangent.y))
             leftWinding += int(math.copysign(1, tangent.y))
 
         for i in rightIntersections.values():
             tangent = i.seg1.tangentAtTime(i.t1)
+            if tangent.y == 0:
+                tangent = self._directionOfTravel(i)
             # print("Tangent at right intersection %s is %f" % (i.point,tangent.y))
             rightWinding += int(math.copysign(1, tangent.y))
 
